@@ -1,6 +1,6 @@
 from typing import TYPE_CHECKING, Callable, Dict, List, NamedTuple, Optional, Set, Type, Union
 
-from django.template import Library
+from django.template import Library, TemplateSyntaxError
 from django.template.base import Parser, Token
 
 from django_components.app_settings import ContextBehaviorType, app_settings
@@ -471,7 +471,11 @@ class ComponentRegistry:
         # the component name and passing the rest to the actual tag function.
         def tag_fn(parser: Parser, token: Token) -> ComponentNode:
             # Let the TagFormatter pre-process the tokens
-            bits = token.split_contents()
+            # NOTE: Django's `split_contents()` raises StopIteration on an unterminated `_("...` translation
+            try:
+                bits = token.split_contents()
+            except StopIteration:
+                raise TemplateSyntaxError(f"Unterminated translation string in tag '{token.contents}'") from None
             formatter = get_tag_formatter(registry)
             result = formatter.parse([*bits])
             start_tag = formatter.start_tag(result.component_name)
